@@ -114,38 +114,6 @@ def bumpAll : List Nat → M Unit
 def fmtString (xs : List Elem) : String :=
   "[" ++ ",".intercalate (xs.map fun e => s!"T{e.id}:{e.val}") ++ "]"
 
-/-- iterator scripts over `Iter` / `IterMut` -/
-def runIterScript (isMut : Bool) : List Char → Iter → List String → M (List String)
-  | [], _, acc => pure acc.reverse
-  | c :: cs, it, acc => do
-    let b ← getBuf
-    match c with
-    | 'F' =>
-      let (r, it') := it.next
-      let tok := match r with
-        | none => "F-"
-        | some i => "F" ++ (showRef b (some i)).drop 1
-      if isMut then (match r with | some i => bump i | none => pure ())
-      runIterScript isMut cs it' (tok :: acc)
-    | 'B' =>
-      let (r, it') := it.nextBack
-      let tok := match r with
-        | none => "B-"
-        | some i => "B" ++ (showRef b (some i)).drop 1
-      if isMut then (match r with | some i => bump i | none => pure ())
-      runIterScript isMut cs it' (tok :: acc)
-    | 'L' => do
-      let n ← it.len
-      runIterScript isMut cs it (s!"L{n}" :: acc)
-    | 'C' =>
-      let tok := "C[" ++ " ".intercalate (it.remaining.map (showSlot b)) ++ "]"
-      runIterScript isMut cs it (tok :: acc)
-    | 'D' => do
-      let xs ← readAll it.remaining
-      xs.forM (fun e => emit (.fmt e.id))
-      runIterScript isMut cs it (("D" ++ fmtString xs) :: acc)
-    | _ => runIterScript isMut cs it ("?" :: acc)
-
 /-- the element-level core of the crate, as the driver calls it: either the hand-written model
 (`modelOps`, the definitions the theorems of `Props/` are about) or the definitions translated from
 the Rust source on this run (`srcOps` in `DriverSrc.lean`, from `Generated/Core.lean`) -/
@@ -171,6 +139,9 @@ structure CoreOps where
   makeContiguous : M View := CircBuf.makeContiguous
   iterNew : M Iter := CircBuf.Iter.new
   iterOverRange : Bound → Bound → M Iter := CircBuf.Iter.overRange
+  iterNext : Iter → M (Option Nat × Iter) := fun it => pure it.next
+  iterNextBack : Iter → M (Option Nat × Iter) := fun it => pure it.nextBack
+  iterLen : Iter → M Nat := CircBuf.Iter.len
   drainNew : Bound → Bound → M Drain := CircBuf.Drain.new
   drainNext : Drain → M (Option Elem × Drain) := CircBuf.Drain.next
   drainNextBack : Drain → M (Option Elem × Drain) := CircBuf.Drain.nextBack
@@ -179,6 +150,40 @@ structure CoreOps where
   drainDrop : Drain → M Unit := CircBuf.Drain.drop
 
 def modelOps : CoreOps := {}
+
+/-- iterator scripts over `Iter` / `IterMut` -/
+def runIterScript (o : CoreOps) (isMut : Bool) : List Char → Iter → List String → M (List String)
+  | [], _, acc => pure acc.reverse
+  | c :: cs, it, acc => do
+    let b ← getBuf
+    match c with
+    | 'F' =>
+      -- (`IterMut` has its own, untranslated, copy of the stepping code: the model's)
+      let (r, it') ← (if isMut then pure it.next else o.iterNext it)
+      let tok := match r with
+        | none => "F-"
+        | some i => "F" ++ (showRef b (some i)).drop 1
+      if isMut then (match r with | some i => bump i | none => pure ())
+      runIterScript o isMut cs it' (tok :: acc)
+    | 'B' =>
+      let (r, it') ← (if isMut then pure it.nextBack else o.iterNextBack it)
+      let tok := match r with
+        | none => "B-"
+        | some i => "B" ++ (showRef b (some i)).drop 1
+      if isMut then (match r with | some i => bump i | none => pure ())
+      runIterScript o isMut cs it' (tok :: acc)
+    | 'L' => do
+      let n ← (if isMut then it.len else o.iterLen it)
+      runIterScript o isMut cs it (s!"L{n}" :: acc)
+    | 'C' =>
+      let tok := "C[" ++ " ".intercalate (it.remaining.map (showSlot b)) ++ "]"
+      runIterScript o isMut cs it (tok :: acc)
+    | 'D' => do
+      let xs ← readAll it.remaining
+      xs.forM (fun e => emit (.fmt e.id))
+      runIterScript o isMut cs it (("D" ++ fmtString xs) :: acc)
+    | _ => runIterScript o isMut cs it ("?" :: acc)
+
 
 def runDrainScript (o : CoreOps) : List Char → Drain → List String → M (Drain × List String)
   | [], d, acc => pure (d, acc.reverse)
@@ -354,26 +359,26 @@ def runOp (o : CoreOps) (toks : List String) : M String := do
     pure s
   | ["iter", sc] => do
     let it ← o.iterNew
-    let r ← runIterScript false (scriptOf sc) it []
+    let r ← runIterScript o false (scriptOf sc) it []
     pure (";".intercalate r)
   | ["iter_mut", sc] => do
     let it ← o.iterNew
-    let r ← runIterScript true (scriptOf sc) it []
+    let r ← runIterScript o true (scriptOf sc) it []
     pure (";".intercalate r)
   | ["range", sb, eb, sc] => match parseBound sb, parseBound eb with
     | some sb, some eb => do
       let it ← o.iterOverRange sb eb
-      let r ← runIterScript false (scriptOf sc) it []
+      let r ← runIterScript o false (scriptOf sc) it []
       pure (";".intercalate r)
     | _, _ => bad
   | ["range_mut", sb, eb, sc] => match parseBound sb, parseBound eb with
     | some sb, some eb => do
       let it ← o.iterOverRange sb eb
-      let r ← runIterScript true (scriptOf sc) it []
+      let r ← runIterScript o true (scriptOf sc) it []
       pure (";".intercalate r)
     | _, _ => bad
   | ["iter_default"] => do
-    let r ← runIterScript false ['L', 'F', 'B'] Iter.empty []
+    let r ← runIterScript o false ['L', 'F', 'B'] Iter.empty []
     pure (";".intercalate r)
   | ["drain", sb, eb, sc, fin] => match parseBound sb, parseBound eb with
     | some sb, some eb => do
